@@ -17,6 +17,7 @@ REPO = "/repo"
 DRIVER = os.path.join(VERIF, "driver")
 TARGET = os.path.join(VERIF, "target")
 BVSIM = os.path.join(TARGET, "debug", "bvsim")
+SHIM = os.path.join(TARGET, "shim", "fsfault.so")
 HEADERS = os.path.join(REPO, "bindgen-tests", "tests", "headers")
 DEFAULT_SEED = 20260925
 NCPU = os.cpu_count() or 4
@@ -108,12 +109,21 @@ def build_driver():
     if p.returncode != 0 or not os.path.exists(BVSIM):
         sys.stderr.write(p.stdout[-6000:])
         raise HarnessError("driver build failed")
+    os.makedirs(os.path.dirname(SHIM), exist_ok=True)
+    src = os.path.join(VERIF, "shim", "fsfault.c")
+    if not os.path.exists(SHIM) or os.path.getmtime(SHIM) < os.path.getmtime(src):
+        q = subprocess.run(["clang", "-shared", "-fPIC", "-O2", "-o", SHIM, src, "-ldl", "-lpthread"],
+                           stdout=subprocess.PIPE, stderr=subprocess.STDOUT, text=True)
+        if q.returncode != 0:
+            sys.stderr.write(q.stdout[-3000:])
+            raise HarnessError("shim build failed")
     return time.time() - t0
 
 
 class Worker:
-    def __init__(self, env=None):
+    def __init__(self, env=None, cwd=None):
         self.env = env
+        self.cwd = cwd
         self.proc = None
         self.start()
 
@@ -128,6 +138,7 @@ class Worker:
             stdout=subprocess.PIPE,
             stderr=subprocess.DEVNULL,
             env=env,
+            cwd=self.cwd,
             text=True,
             bufsize=1,
         )
@@ -177,7 +188,7 @@ class Worker:
                 pass
 
 
-def run_requests(reqs, workers=None, timeout=120, env=None, progress=None):
+def run_requests(reqs, workers=None, timeout=120, env=None, progress=None, cwd=None):
     """Run all requests on a pool of persistent worker processes; results are
     returned in request order, so nothing depends on scheduling."""
     n = len(reqs)
@@ -191,8 +202,18 @@ def run_requests(reqs, workers=None, timeout=120, env=None, progress=None):
     done = [0]
     lock = threading.Lock()
 
+    counter = [0]
+
     def loop():
-        w = Worker(env)
+        wcwd = cwd
+        if cwd is not None:
+            # every worker process gets its own working directory: files that
+            # generations drop into "." must not collide across processes
+            with lock:
+                counter[0] += 1
+                wcwd = os.path.join(cwd, f"w{counter[0]}")
+            os.makedirs(wcwd, exist_ok=True)
+        w = Worker(env, wcwd)
         try:
             while True:
                 try:
